@@ -42,6 +42,7 @@ def run(chk: Check) -> None:
     run_change_detection(chk, ix)
     run_traverser_children(chk, ix)
     run_checker_caches(chk, ix)
+    run_twin_fields(chk, ix)
 
     r1 = chk.rule("R03.1", "reprocess_nodes performs snapshot < clear < strip < analyse < merge < check < snapshot < compare < update_deps on every normal path, returns the compared triggers, and the propagation loop re-queues error targets and resets protocol caches first", floor=12)
     rp = ix.func("mypy.server.update.reprocess_nodes")
@@ -507,3 +508,63 @@ def run_checker_caches(chk: Check, ix) -> None:
             r8.violation(key, f.loc(n), f"`{norm(n.targets[0]) if isinstance(n, ast.Assign) else norm(n.target)}` is stored only under `{norm(cond.test)[:60]}` and NodeStripVisitor never resets `{attr}`: after an edit that removes the property (e.g. TypeGuard changed to TypeIs) the daemon keeps using the old value in re-processed targets")
     if n_found < 2:
         raise AnalysisError(f"only {n_found} conditionally cached node attributes found in the checker")
+
+
+def run_twin_fields(chk: Check, ix) -> None:
+    """R03.9: a list field and its `_set` twin on a build State are written together."""
+    r9 = chk.rule("R03.9", "mypy.build.State keeps `dependencies` / `suppressed` as lists with `dependencies_set` / `suppressed_set` as their membership twins, and add_dependency / suppress_dependency decide from the set what to do with the list: every function that writes one of a pair (assignment, append, remove, add, discard, clear) on some object writes the other of that pair on the same object; a stale set makes a restored module vanish from `dependencies` and then from the build, and its import silently becomes Any", floor=6)
+    st = ix.cls("mypy.build.State")
+    declared = set()
+    for f in st.methods.values():
+        for a in ast.walk(f.node):
+            if isinstance(a, (ast.Assign, ast.AnnAssign)):
+                for t in (a.targets if isinstance(a, ast.Assign) else [a.target]):
+                    if isinstance(t, ast.Attribute) and isinstance(t.value, ast.Name) and t.value.id == "self":
+                        declared.add(t.attr)
+    pairs = sorted(x for x in declared if x + "_set" in declared)
+    if len(pairs) < 2:
+        raise AnalysisError(f"State list/set twins: {pairs}")
+    MUT = {"append", "remove", "add", "discard", "clear", "extend", "insert", "pop", "update"}
+    from ..resolve import Resolver, members
+    R = Resolver(ix)
+    n = 0
+    for q, f in sorted(ix.functions.items()):
+        mn = f.module.name
+        if f.parent is not None or not mn.startswith("mypy.") or ".test" in mn or mn == "mypy.cache":
+            continue
+        writes: dict[tuple[str, str], ast.AST] = {}
+        for x in ast.walk(f.node):
+            tgt = None
+            if isinstance(x, (ast.Assign, ast.AugAssign, ast.AnnAssign)):
+                for t in (x.targets if isinstance(x, ast.Assign) else [x.target]):
+                    if isinstance(t, ast.Attribute):
+                        tgt = t
+                        writes.setdefault((norm(t.value), t.attr), x)
+            elif isinstance(x, ast.Call) and isinstance(x.func, ast.Attribute) and x.func.attr in MUT and isinstance(x.func.value, ast.Attribute):
+                t = x.func.value
+                writes.setdefault((norm(t.value), t.attr), x)
+        for (base, attr), node in sorted(writes.items(), key=lambda kv: kv[1].lineno):
+            p = attr[:-4] if attr.endswith("_set") else attr
+            if p not in pairs:
+                continue
+            twin = p if attr.endswith("_set") else p + "_set"
+            # only objects that carry the twin: a State (self inside State, or a base whose twin is written somewhere, or typed receiver)
+            is_state = (f.cls is not None and f.cls.qualname == "mypy.build.State" and base == "self") or any(b == base and a_ in (p, p + "_set") and a_ != attr for (b, a_) in writes)
+            if not is_state:
+                try:
+                    env = R.env(f)
+                    t = R.type_of(ast.parse(base, mode="eval").body, f, env)
+                    is_state = any(x[0] == "cls" and x[1] == "mypy.build.State" for x in members(t))
+                except Exception:
+                    is_state = False
+            if not is_state:
+                # a CacheMeta-like record has no set twin
+                continue
+            n += 1
+            key = f"{q}: `{base}.{attr}` and `{base}.{twin}` are written together"
+            if (base, twin) in writes:
+                r9.ok(key, f.loc(node))
+            else:
+                r9.violation(key, f.loc(node), f"`{base}.{attr}` is rewritten but `{base}.{twin}` is not: the pair disagrees from here on (add_dependency / suppress_dependency consult the set and then edit the list)")
+    if n < 6:
+        raise AnalysisError(f"only {n} writes of State list/set twins found")
